@@ -88,7 +88,8 @@ def replay_file(path, repo, verif):
 PROACTIVE = {
     'C15': [['fmt-search', '7', '{seed}']],
     'C13': [['fmt-search', '6', '{seed}'], ['c13-primnames']],
-    'C08': [['c08-reach'], ['c08-compactas']],
+    'C08': [['c08-reach'], ['c08-compactas'], ['c08-resolve']],
+    'C18': [['c18-upcast']],
     'C10': [['c10-sanity'], ['c10-resolve']],
     'C11': [['c11-contains']],
     'C12': [['c12-primex', '2000']],
